@@ -310,17 +310,17 @@ def models(tier, seed):
     """(name, constants, exhaustive?) of the intended-formula TLC runs."""
     if tier == "quick":
         return [
-            ("T<=2 n<=2 |k|<=2", dict(ts="{1, 2}", nmax=2, kmax=2, shiftmax=4), True),
+            ("T<=2 n<=2 |k|<=2", dict(ts="{1, 2}", nmax=2, kmax=2, shiftmax=4, workers=8), True),
             ("T=1 n<=3 |k|<=4", dict(ts="{1}", nmax=3, kmax=4, shiftmax=4), True),
             ("T=2 n<=3 |k|<=4 sampled", dict(ts="{2}", nmax=3, kmax=4, shiftmax=2, bmod=4, mod=5, salt=seed % 20), False),
             ("T=3 n<=2 |k|<=2 sampled", dict(ts="{3}", nmax=2, kmax=2, shiftmax=4, bmod=3, mod=7, salt=seed % 21), False),
         ]
     return [
-        ("T<=2 n<=2 |k|<=4", dict(ts="{1, 2}", nmax=2, kmax=4, shiftmax=4), True),
+        ("T<=2 n<=2 |k|<=4", dict(ts="{1, 2}", nmax=2, kmax=4, shiftmax=4, workers=6), True),
         ("T=1 n<=3 |k|<=4", dict(ts="{1}", nmax=3, kmax=4, shiftmax=4), True),
-        ("T=2 n<=3 |k|<=4 sampled", dict(ts="{2}", nmax=3, kmax=4, shiftmax=2, mod=5, salt=seed % 5), False),
+        ("T=2 n<=3 |k|<=4 sampled", dict(ts="{2}", nmax=3, kmax=4, shiftmax=2, mod=5, salt=seed % 5, workers=8), False),
         ("T=3 n<=1 |k|<=2", dict(ts="{3}", nmax=1, kmax=2, shiftmax=4), True),
-        ("T=3 n<=2 |k|<=2 sampled", dict(ts="{3}", nmax=2, kmax=2, shiftmax=4, mod=5, salt=seed % 5), False),
+        ("T=3 n<=2 |k|<=2 sampled", dict(ts="{3}", nmax=2, kmax=2, shiftmax=4, mod=8, salt=seed % 8, workers=8), False),
     ]
 
 
@@ -357,8 +357,7 @@ def main():
     # ---- all TLC runs concurrently (intended formula with dump + coverage; wrong formulas must be refuted)
     def run_intended(m):
         name, c, _ = m
-        big = c.get("mod", 1) == 1 and c["nmax"] * c["kmax"] >= 8
-        return tlc.run_tlc("MISWeights", cfg_text(c), dump=True, coverage=True, workers=8 if big else 4)
+        return tlc.run_tlc("MISWeights", cfg_text(c), dump=True, coverage=True, workers=c.get("workers", 4))
 
     def run_wrong(v):
         # without the declarative Formula invariant: the behavioural properties alone must pin the formula
